@@ -185,6 +185,18 @@ def c06_spec(draw, max_glyphs=9, max_passes=3):
                 adj = -(n_in - 1)
             rules.append(dict(items=items, constraint=cons, actions=actions, adjust=adj))
         passes.append(dict(pre=pre, maxloop=200, rules=rules, reverse=False))
+    if draw(st.integers(0, 5)) == 0:
+        # slot recycling: one pass marks glyph g with a user attribute, the next deletes g and inserts a fresh glyph in front of h;
+        # the engine re-uses the freed slot for the insertion, and a fresh slot must not inherit anything from its previous life
+        g, h, j = draw(st.integers(1, n - 1)), draw(st.integers(1, n - 1)), draw(st.integers(1, n - 1))
+        k, v = draw(st.integers(0, nuser - 1)), draw(st.sampled_from([1, 2, 5, 300, -1]))
+        mark = dict(pre=0, maxloop=200, reverse=False, rules=[dict(items=[g - 1], constraint=None, adjust=0,
+                    actions=[dict(op='keep', attrs=[['user', k, ['lit', v]]])])])
+        recycle = dict(pre=0, maxloop=200, reverse=False, rules=[
+            dict(items=[g - 1], constraint=None, adjust=0, actions=[dict(op='delete', attrs=[])])] + ([] if h == g else [
+            dict(items=[h - 1], constraint=None, adjust=0, actions=[dict(op='glyph', insert=True, cls=j - 1, assoc=[0], attrs=[]), dict(op='keep', attrs=[])])]))
+        passes[nsub:nsub] = [mark, recycle]
+        nsub += 2
     spec = dict(upem=1000, silf_version=draw(st.sampled_from([0x00020000, 0x00030000, 0x00040000, 0x00050000])),
                 glat_version=draw(st.sampled_from([1, 2, 3])), gloc_long=draw(st.booleans()),
                 dir=draw(st.integers(0, 1)), nuser=nuser, ngattr=A0 + NGATTR_USER + 1, glyphs=glyphs, cmap=cmap, classes=classes,
